@@ -3,8 +3,8 @@ import random
 
 from .model import RANKS, is_halfop
 
-NICKS = ["al", "bo", "cy", "di", "ed", "fy", "root", "adm"]
-USERS = {"al": "al", "bo": "bob", "cy": "cy", "di": "di", "ed": "ed", "fy": "fy", "root": "rt",
+NICKS = ["al", "bo", "cy", "di", "ed", "fy", "root", "adm", "Al"]
+USERS = {"Al": "alcap", "Root": "rtcap", "al": "al", "bo": "bob", "cy": "cy", "di": "di", "ed": "ed", "fy": "fy", "root": "rt",
          "adm": "adm"}
 CHANS = ["#x", "#y", "#z", "&w"]
 KEYS = ["k1", "key2", "x"]
@@ -251,7 +251,16 @@ class Gen:
                 if l in "beI":
                     lst = {"b": ch.ban, "e": ch.exc, "I": ch.invex}[l] if ch else set()
                     if sign == "-" and lst and r.random() < 0.8:
-                        args.append(r.choice(sorted(lst)))
+                        m_ = r.choice(sorted(lst))
+                        if r.random() < 0.35:
+                            # the same mask in an incomplete form (completion applies to removal too)
+                            if m_.endswith("!*@*"):
+                                m_ = m_[:-4]
+                            elif m_.endswith("@*") and "!" in m_:
+                                m_ = m_[:-2]
+                            elif "!*@" in m_:
+                                m_ = m_.replace("!*@", "@", 1)
+                        args.append(m_)
                     else:
                         args.append(self.mask_for(r.choice(members) if members and r.random() < 0.7 else None))
                     ms += l
